@@ -144,7 +144,9 @@ def abs_frame(f, sc, sh):
             a = abs_ctx(c, sc, sh)
             if a is not None:
                 ctxs.append(a)
-    exiting_last = bool(f["contexts"]) and f["contexts"][-1]["is_exiting"]
+    # the frame's own code line is left out when its last context is exiting - that context's `with` line stands in for
+    # it - which presupposes that this context is printed at all (contexts shown, and it is not a hidden one left out)
+    exiting_last = bool(f["contexts"]) and f["contexts"][-1]["is_exiting"] and sc and (sh or not f["contexts"][-1]["hide"])
     code = (not exiting_last) and bool(frame_linetext(f))
     return {"fn": "fn%d" % f["fn"], "lineno": frame_lineno(f), "ctxs": ctxs, "code": code}
 
